@@ -11,6 +11,7 @@ import (
 	"regexp"
 	"strings"
 	"sync"
+	"testing/fstest"
 
 	"oss.terrastruct.com/d2/d2compiler"
 	"oss.terrastruct.com/d2/d2graph"
@@ -30,10 +31,11 @@ type linkObj struct {
 	Box  bool     `json:"box"` // declared inside a container
 }
 type linkBoard struct {
-	Kind  string      `json:"kind"`
-	Name  string      `json:"name"`
-	Links []linkObj   `json:"links"`
-	Kids  []linkBoard `json:"kids"`
+	Imported bool        `json:"imported,omitempty"` // the board's content lives in a file of its own: name: @file
+	Kind     string      `json:"kind"`
+	Name     string      `json:"name"`
+	Links    []linkObj   `json:"links"`
+	Kids     []linkBoard `json:"kids"`
 }
 type linksInput struct {
 	Seed int64      `json:"seed"`
@@ -49,7 +51,7 @@ func genLinks(seed int64) linksInput {
 	nobj := 0
 	var mk func(kind, name string, path []string, depth int) linkBoard
 	mk = func(kind, name string, path []string, depth int) linkBoard {
-		b := linkBoard{Kind: kind, Name: name}
+		b := linkBoard{Kind: kind, Name: name, Imported: depth > 0 && r.Intn(4) == 0}
 		all = append(all, path)
 		if depth < 2 {
 			for _, kw := range []string{"layers", "scenarios", "steps"} {
@@ -132,7 +134,7 @@ func genLinks(seed int64) linksInput {
 
 func markerOf(path []string) string { return "m_" + strings.Join(path, "_") }
 
-func renderLinks(b *linkBoard, path []string, ind string, sb *strings.Builder) {
+func renderLinks(b *linkBoard, path []string, ind string, sb *strings.Builder, files map[string]string) {
 	fmt.Fprintf(sb, "%s%s\n", ind, markerOf(path))
 	for _, o := range b.Links {
 		if o.Box {
@@ -151,8 +153,18 @@ func renderLinks(b *linkBoard, path []string, ind string, sb *strings.Builder) {
 				fmt.Fprintf(sb, "%s%s: {\n", ind, kw)
 				first = false
 			}
+			kp := append(append([]string{}, path...), b.Kids[i].Kind, b.Kids[i].Name)
+			if b.Kids[i].Imported {
+				// links written in an imported file are relative to the board the file becomes
+				fn := "imp_" + strings.Join(kp, "_")
+				var fb strings.Builder
+				renderLinks(&b.Kids[i], kp, "", &fb, files)
+				files[fn+".d2"] = fb.String()
+				fmt.Fprintf(sb, "%s  %s: @%s\n", ind, b.Kids[i].Name, fn)
+				continue
+			}
 			fmt.Fprintf(sb, "%s  %s: {\n", ind, b.Kids[i].Name)
-			renderLinks(&b.Kids[i], append(append([]string{}, path...), b.Kids[i].Kind, b.Kids[i].Name), ind+"    ", sb)
+			renderLinks(&b.Kids[i], kp, ind+"    ", sb, files)
 			fmt.Fprintf(sb, "%s  }\n", ind)
 		}
 		if !first {
@@ -219,7 +231,8 @@ func driveLinks(c *Ctx) error {
 func linksRun(in linksInput, d2bin, outDir string) (tr.M, []string, tr.M) {
 	{
 		var sb strings.Builder
-		renderLinks(in.Root, []string{}, "", &sb)
+		impFiles := map[string]string{}
+		renderLinks(in.Root, []string{}, "", &sb, impFiles)
 		text := sb.String()
 		ev := tr.M{"ev": "prog", "text": firstN(text, 900), "err": 0, "panic": 0, "msg": "", "cli": 0, "boards": [][]string{}, "links": []tr.M{}}
 		var boards [][]string
@@ -227,24 +240,28 @@ func linksRun(in linksInput, d2bin, outDir string) (tr.M, []string, tr.M) {
 			board int
 			o     linkObj
 			abs   string
+			base  []string
 		}
 		var lrefs []lref
-		var walk func(b *linkBoard, path []string)
-		walk = func(b *linkBoard, path []string) {
+		var walk func(b *linkBoard, path []string, base []string)
+		walk = func(b *linkBoard, path []string, base []string) {
 			boards = append(boards, path)
 			me := len(boards)
+			if b.Imported {
+				base = path
+			}
 			for _, o := range b.Links {
 				abs := o.Obj
 				if o.Box {
 					abs = "box." + o.Obj
 				}
-				lrefs = append(lrefs, lref{me, o, abs})
+				lrefs = append(lrefs, lref{me, o, abs, base})
 			}
 			for i := range b.Kids {
-				walk(&b.Kids[i], append(append([]string{}, path...), b.Kids[i].Kind, b.Kids[i].Name))
+				walk(&b.Kids[i], append(append([]string{}, path...), b.Kids[i].Kind, b.Kids[i].Name), base)
 			}
 		}
-		walk(in.Root, []string{})
+		walk(in.Root, []string{}, []string{})
 		ev["boards"] = boards
 		stored := map[string][]string{} // board path / object -> stored link segments
 		func() {
@@ -253,7 +270,11 @@ func linksRun(in linksInput, d2bin, outDir string) (tr.M, []string, tr.M) {
 					ev["panic"], ev["msg"] = 1, firstN(fmt.Sprint(p), 200)
 				}
 			}()
-			g, _, err := d2compiler.Compile("l.d2", strings.NewReader(text), nil)
+			mfs := fstest.MapFS{}
+			for fn, t := range impFiles {
+				mfs[fn] = &fstest.MapFile{Data: []byte(t)}
+			}
+			g, _, err := d2compiler.Compile("l.d2", strings.NewReader(text), &d2compiler.CompileOptions{FS: mfs})
 			if err != nil {
 				ev["err"], ev["msg"] = 1, firstN(err.Error(), 300)
 				return
@@ -295,6 +316,9 @@ func linksRun(in linksInput, d2bin, outDir string) (tr.M, []string, tr.M) {
 			dir, err := os.MkdirTemp(outDir, "cli-")
 			if err == nil {
 				os.WriteFile(filepath.Join(dir, "in.d2"), []byte(text), 0644)
+				for fn, t := range impFiles {
+					os.WriteFile(filepath.Join(dir, fn), []byte(t), 0644)
+				}
 				cmd := exec.Command(d2bin, "in.d2", "out.svg")
 				cmd.Dir = dir
 				cmd.Env = append(os.Environ(), "D2_LAYOUT=dagre")
@@ -326,21 +350,23 @@ func linksRun(in linksInput, d2bin, outDir string) (tr.M, []string, tr.M) {
 				os.RemoveAll(dir)
 			}
 		}
-		// the file of a board: the one that shows its marker and the fewest markers (heirs show their base's markers too)
+		// the file of a board: the one that shows its marker and no marker of a board below it (scenarios and
+		// steps show their base's markers too)
 		fileOfBoard := func(path []string) string {
-			best, bestN := "", 1<<30
+			own := markerOf(path)
+			best := ""
 			for f, ff := range files {
-				if !ff.objs[markerOf(path)] {
+				if !ff.objs[own] {
 					continue
 				}
-				n := 0
+				below := false
 				for o := range ff.objs {
-					if strings.HasPrefix(o, "m_") {
-						n++
+					if strings.HasPrefix(o, "m_") && o != own && (own == "m_" || strings.HasPrefix(o, own+"_")) {
+						below = true
 					}
 				}
-				if n < bestN || (n == bestN && f < best) {
-					best, bestN = f, n
+				if !below && (best == "" || f < best) {
+					best = f
 				}
 			}
 			return best
@@ -348,7 +374,7 @@ func linksRun(in linksInput, d2bin, outDir string) (tr.M, []string, tr.M) {
 		links := []tr.M{}
 		for _, lr := range lrefs {
 			bp := boards[lr.board-1]
-			m := tr.M{"board": lr.board, "obj": lr.abs, "toks": lr.o.Toks, "stored": []string{}, "href": []string{}, "file": []string{}}
+			m := tr.M{"board": lr.board, "obj": lr.abs, "toks": lr.o.Toks, "base": nz2(lr.base), "stored": []string{}, "href": []string{}, "file": []string{}}
 			if s, ok := stored[strings.Join(bp, "/")+"|"+lr.abs]; ok {
 				m["stored"] = s
 			}
